@@ -158,7 +158,13 @@ class ClassInfo:
                 for nm in _target_names(tgt):
                     if isinstance(st.value, ast.Name) and len(st.targets) >= 1 \
                             and isinstance(tgt, ast.Name):
-                        self.members[nm] = ('alias', st.value.id)
+                        cur = self.members.get(st.value.id)
+                        if isinstance(cur, FuncInfo):
+                            # bind to the function object as of now (a later
+                            # `del name` in the class body does not unbind it)
+                            self.members[nm] = cur
+                        else:
+                            self.members[nm] = ('alias', st.value.id)
                     else:
                         self.members[nm] = ('value', st.value)
                     self.deleted.discard(nm)
